@@ -6,19 +6,24 @@
     C01_text_lexsafe, C01_attr_lexsafe   no raw `<` / `&`-less … in the escaped output
   The escape tables and entity names are the ones `extract.py` read off `/repo/src/entity.rs`.
 
-  Tree level, serialiser third (the other two thirds: tokenizer contract `lex (renderTokens ts) = ts`
-  under `LexOK`, Model/LexOK.lean; builder on a namespace-aware spelling, Lemmas/ParseNs*):
+  Tree level, the serialiser's side:
     C01_serialised_is_rendering (+ _ok, _conv, _fails_iff, _at, _representable)
         `to_string` of a tree IS `renderTokens (serTokens tree)` (Model/SerTokens.lean), one
         equation covering success, the converse and the errors
     C01_rendering_lexok, C01_rendering_lexok_fragment
         for a `Representable` / `RepresentableFragment` tree the token list satisfies `LexOK`
-    C01_rendering_decodes
-        attribute / declaration values and text tokens decode back to the strings of the tree
-    C01_value_spelling
-        the same strings as well-spelled `Piece` lists (bridge to the builder theorems)
-  The names the tags and attributes are written with resolve, nearest declaration first, to the
-  names' namespaces: C10_sound_tree, C10_sound_tree_endtag, C10_sound_tree_attribute (Props/C10).
+    C01_rendering_decodes, C01_value_spelling
+        values and text decode back / as well-spelled `Piece` lists
+    C01_serialises   `to_string` succeeds iff `namesWritable` (the serialiser's MissingPrefix checks)
+  Tree level, the round trip (Lemmas/RoundTrip*.lean; `spellTop` = the tree as a spelling `NSNode`):
+    C01_spelling_tokens / _denotes / _well     lemmas A / B / C: tokens of the spelling = serTokens;
+        it denotes (XML-Namespaces scoping on strings) what the tree reads back as; the builder admits it
+    C01_build, C01_build_fragment      builder on serTokens returns the ORIGINAL tree, tables unchanged
+    C01_main, C01_main_fragment        serialise, tokenize (any tokenizer meeting `LexCanon`), build:
+        the reparsed document reads back as the abstract document of the original
+    C01_main_identical (+ _fragment_identical, _writable), C01_main_deep_equal (+ _fragment_…)
+        the reparsed tree IS the original tree (ids, declarations, prefixes), hence deep_equal
+  The tokenizer contract `LexCanon` is a hypothesis (to be discharged by the reference tokenizer).
 -/
 import XotModel.Lemmas.Entity
 import XotModel.Lemmas.SerTokensLexTop
